@@ -67,11 +67,11 @@ def humanDurationCount (d : Nat) : Nat × Nat :=
   (idx, if idx < units.length - 1 then max t 2 else t)
 
 def humanDuration (d : Nat) (alternate : Bool) : List Char :=
-  let (idx, t) := humanDurationCount d
-  let (_, name, alt) := units.getD idx (SECOND, "second", "s")
-  if alternate then digits t ++ alt.toList
-  else if t = 1 then digits t ++ [' '] ++ name.toList
-  else digits t ++ [' '] ++ name.toList ++ ['s']
+  let r := humanDurationCount d
+  let u := units.getD r.1 (SECOND, "second", "s")
+  if alternate then digits r.2 ++ u.2.2.toList
+  else if r.2 = 1 then digits r.2 ++ [' '] ++ u.2.1.toList
+  else digits r.2 ++ [' '] ++ u.2.1.toList ++ ['s']
 
 /-- the duration a `HumanDuration` rendering stands for -/
 def humanDurationValue (d : Nat) : Nat :=
